@@ -372,8 +372,11 @@ def prefix_case(FS, rng, workdir):
         N = rng.randint(1, 3) if rotate else 0
         now = datetime(2021, rng.randint(1, 12), rng.randint(1, 28), rng.randint(0, 23), rng.randint(0, 59),
                        rng.randint(0, 59))
-        pid = rng.choice([1, 42, 31337, 4194304])
-        case = {"kind": "c20-prefix", "time_format": fmt, "max_bytes": M, "backup_count": N, "pid": pid,
+        # several workers write through one stream: every line is labelled with the pid of ITS write (each payload
+        # line starts with "P<pid>:" so that the label can be checked against the content)
+        pids = rng.sample([1, 42, 31337, 4194304], rng.choice([1, 2, 3]))
+        pid = pids[0]
+        case = {"kind": "c20-prefix", "time_format": fmt, "max_bytes": M, "backup_count": N, "pid": pid, "pids": pids,
                 "now": now.isoformat(), "writes": []}
         s = FS(filename=os.path.join(d, NAME), max_bytes=M, backup_count=N, time_format=fmt)
         s.now = lambda: now
@@ -386,10 +389,12 @@ def prefix_case(FS, rng, workdir):
                 case["writes"].append("reopen")
                 continue
             nl = rng.randint(0, 4)
-            parts = ["".join(rng.choice(ALPH + "  ") for _ in range(rng.choice([0, 1, 3, 17, 40]))) for _ in range(nl + 1)]
-            text = "\n".join(parts) + rng.choice(["", "\n", "\n\n"])
+            wpid = rng.choice(pids)
+            parts = ["P%d:" % wpid + "".join(rng.choice(ALPH + "  ") for _ in range(rng.choice([0, 1, 3, 17, 40])))
+                     for _ in range(nl + 1)]
+            text = "\n".join(parts) + "\n"
             data = text.encode() if rng.random() < 0.5 else text
-            msg = {"data": data, "pid": pid, "name": "stdout"}
+            msg = {"data": data, "pid": wpid, "name": "stdout"}
             stamp = None
             if rng.random() < 0.4:
                 t = now.replace(second=rng.randint(0, 59))
@@ -398,15 +403,16 @@ def prefix_case(FS, rng, workdir):
                 allowed.add(datetime.fromtimestamp(stamp).strftime(fmt))
             else:
                 allowed.add(ts_now)
-            case["writes"].append({"data": text, "bytes": isinstance(data, bytes), "timestamp": stamp})
+            case["writes"].append({"data": text, "bytes": isinstance(data, bytes), "timestamp": stamp, "pid": wpid})
             s(msg)
         s.close()
         for fn, content in sorted(read_dir(d).items()):
             if content and not content.endswith(b"\n"):
                 return "%s does not end with a newline under time_format" % fn, case
             for ln, line in enumerate(content.decode("utf8").split("\n")[:-1]):
-                if not any(line.startswith("%s [%d] | " % (ts, pid)) for ts in allowed):
-                    return "line %d of %s carries no '<timestamp> [pid] | ' prefix: %r" % (ln + 1, fn, line), case
+                if not any(line.startswith("%s [%d] | P%d:" % (ts, p_, p_)) for ts in allowed for p_ in pids):
+                    return ("line %d of %s does not carry the '<timestamp> [pid] | ' prefix of the write it comes from: %r"
+                            % (ln + 1, fn, line)), case
         return None
     finally:
         shutil.rmtree(d, ignore_errors=True)
